@@ -133,7 +133,10 @@ pub fn genlx(ctx: &mut Ctx) -> String {
     let t = ctx.board.turn();
     let o = t.opposite();
     ctx.fresh.clear_caches_for_verif();
-    let in_check = evaluate::player_is_in_check(&ctx.board, &mut ctx.fresh, t);
+    // the other colour is asked about only when the question has a well-defined answer: the side to move
+    // is not in check (no "move" captures a king) and no en-passant target is set (the target belongs to
+    // the side to move; the generator offers it to whichever colour is asked and then fails in apply)
+    let in_check = evaluate::player_is_in_check(&ctx.board, &mut ctx.fresh, t) || !ctx.board.peek_en_passant_target().is_empty();
     let mut plan: Vec<(bool, Color)> = vec![];
     if !in_check {
         plan.push((true, o));
